@@ -177,6 +177,10 @@ class _Canonical(ast.NodeTransformer):
             if isinstance(st, ast.If):
                 if st.orelse and all(isinstance(x, ast.Pass) for x in st.orelse):
                     st.orelse = []
+                # `if c: if c: X`  ->  `if c: X`  (c without calls; nothing between the two tests)
+                if st.body and isinstance(st.body[0], ast.If) and not st.body[0].orelse and ast.dump(st.body[0].test) == ast.dump(st.test) \
+                        and not any(isinstance(x, (ast.Call, ast.NamedExpr, ast.Await, ast.Yield)) for x in ast.walk(st.test)):
+                    st.body[0:1] = st.body[0].body
                 if not st.orelse and all(isinstance(x, ast.Pass) for x in st.body) and not any(isinstance(x, (ast.Call, ast.NamedExpr, ast.Await, ast.Yield)) for x in ast.walk(st.test)):
                     continue                # a test without calls that selects nothing
             if isinstance(st, ast.Expr) and (isinstance(st.value, ast.Name) or (isinstance(st.value, ast.Tuple) and all(isinstance(x, ast.Name) for x in st.value.elts))):
@@ -269,6 +273,12 @@ class _Canonical(ast.NodeTransformer):
     def visit_While(self, node):
         node = self.generic_visit(node)
         node.test = self._truth(node.test)
+        if node.orelse and all(isinstance(x, ast.Pass) for x in node.orelse):
+            node.orelse = []
+        if node.orelse and all(isinstance(x, ast.Pass) for x in node.body):
+            # `if c: pass` / `else: X`  ->  `if not c: X`
+            node.test = self.visit_UnaryOp(ast.copy_location(ast.UnaryOp(op=ast.Not(), operand=node.test), node.test)) if not (isinstance(node.test, ast.UnaryOp) and isinstance(node.test.op, ast.Not)) else node.test.operand
+            node.body, node.orelse = node.orelse, []
         return node
 
     def visit_IfExp(self, node):
@@ -686,7 +696,9 @@ def _impure_calls(e: ast.AST):
 
 _PURE_METHODS = {"tobytes", "ljust", "rjust", "decode", "encode", "hex", "upper", "lower", "strip", "rstrip", "lstrip", "replace", "startswith", "endswith",
                  "to_bytes", "get", "items", "keys", "values", "bit_length", "islower", "isupper", "pack", "unpack", "unpack_from", "format", "join", "split",
-                 "index", "count", "find", "copy", "group", "match", "search", "sub", "has_section", "has_option", "options", "sections", "isdigit"}
+                 "index", "count", "find", "copy", "group", "match", "search", "sub", "has_section", "has_option", "options", "sections", "isdigit",
+                 # codec methods of ODVariable (canopen/objectdictionary/__init__.py): they store nothing
+                 "encode_raw", "decode_raw", "encode_phys", "decode_phys", "encode_desc", "decode_desc", "encode_bits", "decode_bits"}
 
 
 def _stable_rhs(fn, blk, i, rhs, uses, params) -> bool:
@@ -1244,6 +1256,56 @@ def _restore_aug_mask(fn: ast.FunctionDef, ref_fn: dict, known: set) -> None:
                     return
 
 
+def _coalesce_toward_reference(fn: ast.FunctionDef, ref_fn: dict, known: set) -> None:
+    """`t = f(x)` with t fresh, x a local of the reference that is not mentioned after this statement, where the reference
+    reuses the name (`x = f(x)`): t is x from here on.  Also for an if/else that binds t in both branches."""
+    ref_lines = {l.strip() for l in ref_fn.get("src", "").splitlines()}
+    params = {p.arg for p in fn.args.posonlyargs + fn.args.args + fn.args.kwonlyargs}
+    if any(isinstance(n, (ast.Global, ast.Nonlocal, ast.Lambda)) or (isinstance(n, ast.FunctionDef) and n is not fn) for n in ast.walk(fn)):
+        return
+    for blk in _fn_blocks(fn):
+        for i, st in enumerate(blk):
+            if isinstance(st, ast.Assign) and len(st.targets) == 1 and isinstance(st.targets[0], ast.Name):
+                tnames = {st.targets[0].id}
+            elif isinstance(st, ast.If) and st.orelse:
+                tn = [{x.targets[0].id for x in b if isinstance(x, ast.Assign) and len(x.targets) == 1 and isinstance(x.targets[0], ast.Name)} for b in (st.body, st.orelse)]
+                tnames = tn[0] & tn[1]
+            else:
+                continue
+            for t in sorted(tnames):
+                if t in known or t in params:
+                    continue
+                occ_t = [n for n in ast.walk(fn) if isinstance(n, ast.Name) and n.id == t]
+                inside = {id(n) for later in blk[i:] for n in ast.walk(later)}
+                if not all(id(n) in inside for n in occ_t):
+                    continue
+                reads = {n.id for n in ast.walk(st) if isinstance(n, ast.Name) and isinstance(n.ctx, ast.Load) and n.id in known and n.id not in params}
+                for x in sorted(reads):
+                    occ_x = [n for n in ast.walk(fn) if isinstance(n, ast.Name) and n.id == x]
+                    upto = {id(n) for earlier in blk[:i + 1] for n in ast.walk(earlier)}
+                    if not all(id(n) in upto for n in occ_x):
+                        continue
+                    # x must be bound before (in this block) and the renamed statement must read as one of the reference's
+                    if not any(isinstance(n, ast.Name) and n.id == x and isinstance(n.ctx, ast.Store) for earlier in blk[:i] for n in ast.walk(earlier)):
+                        continue
+                    import copy as _copy
+                    trial = _copy.deepcopy(st)
+                    for n in ast.walk(trial):
+                        if isinstance(n, ast.Name) and n.id == t:
+                            n.id = x
+                    trial = _Canonical().visit(ast.Module(body=[trial], type_ignores=[])).body
+                    lines = {l.strip() for tr in trial for l in ast.unparse(tr).splitlines()}
+                    want = [l for l in lines if l.startswith(f"{x} ") or f" {x} " in l]
+                    if not want or not all(l in ref_lines for l in lines):
+                        continue
+                    # inside the statement itself x is read before t is written (plain assignment) or in the other branch only
+                    if isinstance(st, ast.If) and any(isinstance(n, ast.Name) and n.id == x and isinstance(n.ctx, ast.Store) for n in ast.walk(st)):
+                        continue
+                    for n in occ_t:
+                        n.id = x
+                    return _coalesce_toward_reference(fn, ref_fn, known)
+
+
 def _delay_snapshot_mutation(fn: ast.FunctionDef, known: set) -> None:
     """`t = self.a` / `self.a ^= K` / ... uses of t ...   ->   `t = self.a` / ... uses of t ... / `self.a ^= K`: an update of
     an attribute whose old value was saved in a fresh local moves behind the last use of that local, when nothing in between
@@ -1600,7 +1662,9 @@ def canonicalise(tree: ast.Module, rel: str = "") -> ast.Module:
                                 _ctor_field_reads(n, rf, ctor)
                             _extract_toward_reference(n, rf, known)
                             _restore_aug_mask(n, rf, known)
+                            _coalesce_toward_reference(n, rf, known)
                         shape()
+                        _Canonical().visit(n)
                         now = ast.dump(n)
                         if now == before:
                             break
